@@ -71,10 +71,11 @@ var All = []*Prop{
 	},
 	{
 		ID:    "C11",
-		Rules: []*core.Rule{rules.Revoked, rules.TrapPost, rules.TrapInvariant},
+		Rules: []*core.Rule{rules.Revoked, rules.TrapPost, rules.TrapInvariant, rules.TrapThrow},
 		Explanation: "R-REVOKED ('revoked proxies throw on every operation'): in each of the 41 objectImpl methods declared on proxyObject every dereference of p.target and every call receiving it is dominated by p.checkHandler() (directly or through a helper that always calls it), or by an explicit nil test, or the method is an audited exception; and proxyObject overrides every key-kinded and structural internal method (no silent fallback to baseObject). " +
 			"R-TRAPPOST ('invariant-breaking handlers are rejected' — the structural half): for each key-kinded trap family (defineOwnProperty, hasProperty, hasOwnProperty, getOwnProp, get, setOwn, setForeign, delete) the Str, Idx and Sym variants call the same proxy check helpers, handler traps and target operations modulo key kind, and validate against the target's getOwnProp of their own key kind. " +
-			"R-TRAPINVARIANT: two invariant checks whose shape is decidable - in proxyDeleteCheck every normally returning path with trapResult true and a non-nil target property passes target.self.isExtensible() (both the configurable and the extensible test apply to every existing property, not only to accessor/flagged ones); in proxyOwnKeys the value tested for non-configurability of an omitted key can come from target.getOwnProp (key iterators of most kinds carry no value).",
+			"R-TRAPINVARIANT: two invariant checks whose shape is decidable - in proxyDeleteCheck every normally returning path with trapResult true and a non-nil target property passes target.self.isExtensible() (both the configurable and the extensible test apply to every existing property, not only to accessor/flagged ones); in proxyOwnKeys the value tested for non-configurability of an omitted key can come from target.getOwnProp (key iterators of most kinds carry no value). " +
+			"R-TRAPTHROW: a conditional throw (typeErrorResult(throw, ...)) in a proxyObject method occurs only under a falsish trap result; everything else - a trap answer that contradicts an invariant of the target - is rejected unconditionally, also for Reflect.* callers.",
 		Technique:  "dominance of a revocation check over every target use (SSA, with helper summaries); sibling callee-set agreement across key kinds; method-set override completeness; must-pass-through with excusing edges; value-origin (phi closure) check",
 		DesignRef:  "DESIGN.md section 4, C11",
 		NotCovered: "whether each post-check's boolean conditions are the specification's (__isCompatibleDescriptor, the rest of proxyOwnKeys completeness): decision tables over descriptor values; forwarding equivalence as a whole",
@@ -147,7 +148,7 @@ var All = []*Prop{
 	},
 	{
 		ID:    "C15",
-		Rules: []*core.Rule{rules.InterruptSync, rules.Poll, rules.UncatchableClose, rules.TryPair, rules.Boundary, rules.ScopedState, rules.PairDefer, rules.ExitAgree},
+		Rules: []*core.Rule{rules.InterruptSync, rules.Poll, rules.UncatchableClose, rules.TryPair, rules.Boundary, rules.ScopedState, rules.PairDefer, rules.ExitAgree, rules.Classifier},
 		Explanation: "R-INTERRUPTSYNC decides the race-freedom clause for the engine's own accesses: vm.interrupted is only touched through sync/atomic, vm.interruptVal only between interruptLock.Lock/Unlock, the value is published before the flag is raised, the flag is raised only in vm.Interrupt and cleared only in vm.ClearInterrupt which is reached only from the public API and leaveAbrupt (so it stays raised for the whole unwinding), and the transitive callees of Runtime.Interrupt/ClearInterrupt touch no other runtime state. " +
 			"R-POLL: every instruction-dispatch loop loads the flag atomically on each iteration, unconditionally, before the dispatch, and the loaded value gates the dispatch. " +
 			"R-UNCATCHABLECLOSE: code that closes iterators on an exceptional path is guarded by a classification that excludes uncatchable payloads ('run no further catch or finally'). " +
